@@ -276,6 +276,15 @@ func init() {
 	}
 	reg("bytes.Index", func(e *Exec, a []Value) Value { return index(e, e.bytesOf(a[0]), e.bytesOf(a[1])) })
 	reg("strings.Index", func(e *Exec, a []Value) Value { return index(e, e.bytesOf(a[0]), e.bytesOf(a[1])) })
+	countByte := func(e *Exec, b []*Term, c *Term) Value {
+		n := e.tt.BV(64, 0)
+		for _, x := range b {
+			n = e.tt.BVBin("bvadd", n, e.tt.Ite(e.tt.Eq(x, c), e.tt.BV(64, 1), e.tt.BV(64, 0)), false)
+		}
+		return n
+	}
+	reg("internal/bytealg.Count", func(e *Exec, a []Value) Value { return countByte(e, e.bytesOf(a[0]), a[1].(*Term)) })
+	reg("internal/bytealg.CountString", func(e *Exec, a []Value) Value { return countByte(e, a[0].(StrVal).B, a[1].(*Term)) })
 	reg("bytes.IndexByte", func(e *Exec, a []Value) Value { return index(e, e.bytesOf(a[0]), []*Term{a[1].(*Term)}) })
 	reg("strings.IndexByte", func(e *Exec, a []Value) Value { return index(e, e.bytesOf(a[0]), []*Term{a[1].(*Term)}) })
 	reg("strings.Contains", func(e *Exec, a []Value) Value {
